@@ -874,6 +874,10 @@ func (cl *cluster) resize(ev, kind string, mask int, before controller.VerifView
 	switch kind {
 	case "grow":
 		size = fmt.Sprint(cur + Block)
+	case "growfe":
+		// a grow in which the replicas are resized but the frontend's resize fails: the request fails and is repeated later
+		size = fmt.Sprint(cur + Block)
+		cl.fe.failResize = true
 	case "same":
 		size = fmt.Sprint(cur)
 	case "shrink":
@@ -904,6 +908,36 @@ func (cl *cluster) resize(ev, kind string, mask int, before controller.VerifView
 		return
 	}
 	cl.cnt["resize_requests"]++
+	cl.fe.failResize = false
+	if kind == "grow" || kind == "growfe" {
+		// a replica that did not fail its call stays in service in the mode it had
+		for _, b := range before.Backends {
+			n := nodeOf(b.Address)
+			failed := false
+			for _, x := range maskNodes(mask, cl.cfg.N) {
+				failed = failed || x == n
+			}
+			if b.Mode == string(types.ERR) || failed || cl.nodes[n].View().Rebuilding {
+				continue // (a replica in state rebuilding has no resize action: it refuses and is detached)
+			}
+			still := false
+			for _, a := range after.Backends {
+				still = still || (nodeOf(a.Address) == n && a.Mode == b.Mode)
+			}
+			if !still {
+				cl.violate("resize", "healthy-replica-lost", fmt.Sprintf("%s: node %d (%s) did not fail any call but is not in service in that mode afterwards: %v", ev, n, b.Mode, after.Backends))
+			}
+		}
+	}
+	if kind == "growfe" {
+		if err == nil {
+			cl.violate("resize", "frontend-failure-swallowed", fmt.Sprintf("%s: the frontend's resize failed but the request reported success", ev))
+		}
+		if after.Size != cur {
+			cl.violate("resize", "grow-recorded-without-frontend", fmt.Sprintf("%s: the frontend's resize failed but the controller size went %d -> %d", ev, cur, after.Size))
+		}
+		return
+	}
 	if kind != "grow" {
 		if err == nil {
 			cl.violate("resize", "invalid-resize-accepted:"+kind, fmt.Sprintf("%s (name %q, size %q, current %d) was accepted", ev, name, size, cur))
